@@ -166,8 +166,17 @@ func (c20) Gen(r *core.Rng, tier string, idx int) *core.Trace {
 	if tier == "quick" && nbig > 3500 {
 		nbig = 3500
 	}
+	if t.Cfg["bs"] == 4096 && ((tier == "thorough" && r.Chance(8)) || (tier == "quick" && r.Chance(3))) {
+		// more than 255 leaf blocks below the root of the hash tree of a 4 KiB-block directory
+		nbig = 14000
+	}
 	if nbig > 0 {
 		o := core.Op{K: "bigdir", P: where("big"), D: nbig, S: core.PickOf(r, "short", "long", "long")}
+		if nbig > 10000 {
+			o.S = "long"
+			t.Cfg["reindex"] = 1
+			t.Cfg["f_dir_index"] = 1
+		}
 		meta(&o)
 		o.A |= 0o700
 		add(o)
@@ -444,7 +453,7 @@ func (p c20) Exec(t *core.Trace) *core.Result {
 			nodes[o.P] = n
 			order = append(order, o.P)
 		case "bigdir":
-			if !usable(o.P) || o.D < 1 || o.D > 20000 {
+			if !usable(o.P) || o.D < 1 || o.D > 30000 {
 				continue
 			}
 			ensureParents(o.P)
